@@ -7,6 +7,7 @@ import (
 	"fmt"
 	"math/rand"
 	"os"
+	"path/filepath"
 	"strings"
 )
 
@@ -221,7 +222,8 @@ func runC08(w *World) {
 	}
 	// a third of the runs rewrite the log while the writers run: whatever bookkeeping decides
 	// "is there something to flush" has to survive the swap of the file
-	if w.knob("shrink", 3) == 1 {
+	withShrink := w.knob("shrink", 3) == 1
+	if withShrink {
 		sh := w.addActor(n, "127.0.0.1:50090", []Cmd{{Args: []string{"AOFSHRINK"}}, {Args: []string{"AOFSHRINK"}}})
 		sh.weight = 1
 		w.stat("c08.runs_with_rewrite", 1)
@@ -234,9 +236,44 @@ func runC08(w *World) {
 		}
 		return true
 	}
-	w.RunChaos(3000, allDone)
-	if !w.failed() {
-		w.Drain(5e9, allDone)
+	// in some runs the volume fills up at a drawn write of the log buffer (a prefix of that buffer
+	// may still fit): tile38 ends the process there, which for the simulation is a crash of the
+	// node - and no acknowledgement of a command whose bytes did not reach the file may have left
+	diskFull := w.knob("diskfull", 6) == 1
+	if diskFull {
+		inst.diskFullAt = 2 + w.knob("fullat", 14)
+		inst.diskFullKeep = w.knob("fullkeep", 5)
+	}
+	died := func() bool { return inst.atPoint == panicPoint }
+	over := func() bool { return allDone() || died() }
+	w.RunChaos(3000, over)
+	if !w.failed() && !over() {
+		w.Drain(5e9, over)
+	}
+	if diskFull && !diskFullSeam {
+		w.stat("diskfull.unavailable", 1)
+	}
+	if !w.failed() && died() {
+		w.stat("probe.disk_full_ends_the_process", 1)
+		n.crash()
+		fb, _ := os.ReadFile(filepath.Join(n.dir, "appendonly.aof"))
+		for _, a := range w.actors {
+			for _, op := range a.ops {
+				if op.Return < 0 || len(op.Cmd.Inner) > 0 || !ackIsDurableWrite(op, op.Reply) {
+					continue
+				}
+				if !bytes.Contains(fb, encodeCmd(op.Cmd.Args)) && !withShrink {
+					w.violate("C08/ack-lost-at-disk-full", "the client holds the reply %s to [%s], the process died on a full disk, and the command is not in the surviving appendonly.aof (%d bytes)",
+						op.Reply.String(), clipStr(op.Cmd.String(), 120), len(fb))
+					break
+				}
+			}
+		}
+		if !w.failed() {
+			if in2 := n.start(); !in2.ready() {
+				w.violate("C08/restart-after-disk-full", "the server does not start on the directory a full disk left behind: %v", in2.serveErr)
+			}
+		}
 	}
 	w.stat("c08.acks_checked", checked)
 	// non-trivial: at least two connections had acknowledged writes
